@@ -257,6 +257,53 @@ def read_case(draw):
     return spec
 
 
+def check_skipfooter(case):
+    """read_csv(skipfooter=N, engine="python") of a file whose last N lines are trailer text, cut into blocks: the data rows
+    are all there (== pandas.read_csv with the same options) whichever block they fall into."""
+    import dask.dataframe as dd
+
+    nrows, nfoot, bs = case["nrows"], case["skipfooter"], case["blocksize"]
+    body = "a,b\n" + "".join(f"{i},{(i * 7) % 5}\n" for i in range(nrows))
+    foot = "".join(f"# trailer {k}\n" for k in range(nfoot))
+    data = (body + foot).encode()
+    kw = dict(skipfooter=nfoot, engine="python")
+    if not case.get("infer"):
+        kw["dtype"] = {"a": "int64", "b": "int64"}
+    want = pd.read_csv(io.BytesIO(data), **kw)
+    # where the last block starts once dask has moved its start behind the next line end
+    size = len(data)
+    if bs is None or bs >= size:
+        last_start = 0
+    else:
+        raw = ((size - 1) // bs) * bs
+        nl = data.find(b"\n", raw)
+        last_start = size if nl < 0 else nl + 1
+    sig = dict(op="read", skipfooter=True, infer=bool(case.get("infer")), sample_reaches_footer=bool(case.get("sample_all")), multi_block=bool(bs) and bs < size, footer_straddles=last_start > len(body.encode()))
+    with tempfile.TemporaryDirectory(prefix="vf-c47-") as tmp:
+        path = os.path.join(tmp, "in.csv")
+        with open(path, "wb") as f:
+            f.write(data)
+        with impl(f"read_csv(blocksize={bs}, skipfooter={nfoot}, engine='python')", **sig), C.quiet():
+            # the header/dtype sample is kept short of the trailer (as it is for any file larger than the default 256 kB
+            # sample); cases with sample_all=True let it reach the trailer
+            skw = {} if case.get("sample_all") else {"sample": 20}
+            back = dd.read_csv(path, blocksize=bs, **skw, **kw)
+            got = F.compute(back)
+    compare(got, want, f"read_csv(blocksize={bs}, skipfooter={nfoot}) of {nrows} rows + {nfoot} trailer lines ({size} bytes)", sig, meta=back._meta)
+
+
+def skipfooter_cases(tier):
+    for nrows in (6, 13) if tier == "quick" else (1, 6, 13, 40):
+        for nfoot in (1, 2, 3):
+            size = 4 + sum(len(f"{i},{(i * 7) % 5}\n") for i in range(nrows)) + 12 * nfoot
+            for bs in sorted({None, 1000, size, size - 1, size // 2, size // 2 + 3, size // 3, 16, 25, 33}, key=lambda v: (v is None, v)):
+                if bs is None or bs >= 8:
+                    yield {"nrows": nrows, "skipfooter": nfoot, "blocksize": bs, "infer": False}
+                    if bs is None or bs in (size, 33):
+                        yield {"nrows": nrows, "skipfooter": nfoot, "blocksize": bs, "infer": True}
+                        yield {"nrows": nrows, "skipfooter": nfoot, "blocksize": bs, "infer": False, "sample_all": True}
+
+
 SUBCHECKS = [
     Sub(
         "roundtrip",
@@ -266,6 +313,16 @@ SUBCHECKS = [
         nontrivial=_rows_text_short,
         classes=classes,
         doc="to_csv (directory / name_function / single_file) -> read_csv(blocksize) == pandas' own CSV round trip",
+    ),
+    Sub(
+        "skipfooter",
+        check_skipfooter,
+        kind="enum",
+        cases=skipfooter_cases,
+        nontrivial=lambda c: c["blocksize"] is not None and c["blocksize"] < 60,
+        classes=lambda c: [f"footer-{c['skipfooter']}", "one-block" if c["blocksize"] is None or c["blocksize"] >= 200 else "blocks"],
+        exhaustive=True,
+        doc="read_csv(skipfooter=1..3, engine='python') of 6/13 (thorough 1..40) rows + trailer lines under 8-10 block sizes (None, whole file, halves, thirds, 16/25/33 bytes) == pandas.read_csv",
     ),
     Sub(
         "read",
